@@ -932,23 +932,32 @@ func TestVerifC05CLI(t *testing.T) {
 			return
 		}
 		if ref.Status != 0 {
-			// the option sets of this harness are meant to be valid command lines
-			panic(fmt.Sprintf("c05cli harness: reference run of %q exits with %d %s\n%s", label, ref.Status, ref.Signal, ref.Stderr))
+			// the option sets of this harness are valid command lines (they all run on the pinned tree): a reference
+			// run that fails is a verdict on the tree under test
+			r.Violate(fmt.Sprintf("cli/%s/%s/reference-configuration-fails", sc.Tool, sc.Name),
+				fmt.Sprintf("%s [%s]: exit status %d %s in every one of %d runs; stderr: %s", label, c05cliRef, ref.Status, ref.Signal, len(refs), c05cliClip([]byte(c05cliNoLog(ref.Stderr)))), rp(c05cliRef))
+			return
 		}
 		total := len(ref.Stdout)
 		for _, o := range sc.Outs {
 			b, ok := ref.Files[o]
 			if !ok {
-				panic(fmt.Sprintf("c05cli harness: reference run of %q did not write %s", label, o))
+				r.Violate(fmt.Sprintf("cli/%s/%s/reference-configuration-writes-no-output-file", sc.Tool, sc.Name),
+					fmt.Sprintf("%s [%s]: exit status 0 but %s was not written", label, c05cliRef, o), rp(c05cliRef))
+				return
 			}
 			total += len(b)
 		}
 		if len(ref.Stdout) == 0 && !strings.Contains(" "+strings.Join(sc.Args, " ")+" ", " -o ") {
-			panic(fmt.Sprintf("c05cli harness: vacuous option set, the reference run of %q writes nothing on its standard output", label))
+			r.Violate(fmt.Sprintf("cli/%s/%s/reference-configuration-writes-nothing", sc.Tool, sc.Name),
+				fmt.Sprintf("%s [%s]: exit status 0 and nothing on the standard output (on the pinned tree every option set of this harness has output)", label, c05cliRef), rp(c05cliRef))
+			return
 		}
 		for _, o := range sc.Outs {
 			if len(ref.Files[o]) == 0 {
-				panic(fmt.Sprintf("c05cli harness: vacuous option set, the reference run of %q leaves %s empty", label, o))
+				r.Violate(fmt.Sprintf("cli/%s/%s/reference-configuration-writes-nothing", sc.Tool, sc.Name),
+					fmt.Sprintf("%s [%s]: exit status 0 and %s is empty", label, c05cliRef, o), rp(c05cliRef))
+				return
 			}
 		}
 		if total > 0 {
